@@ -353,12 +353,17 @@ def pointVisible (cfg : Cfg) (vw : Viewer) (t : V3) (occ : List Box) : Bool :=
 
 /-! ## the object branch (ray casting abstracted to a given finite list of rays) -/
 
+/-- smallest element of a list -/
+def minList : List Rat → Option Rat
+  | [] => none
+  | s :: rest =>
+    match minList rest with
+    | none => some s
+    | some m => if s < m then some s else some m
+
 /-- first parameter `s ≥ 0` at which the ray meets the target surface with `s·|dir| ≤ D` -/
 def Box.firstHit (b : Box) (p dir : V3) (D : Rat) : Option Rat :=
-  ((b.hitParams p dir).filter fun s => decide (0 ≤ s ∧ s * s * dir.normSq ≤ D * D)).foldl
-    (fun acc s => match acc with
-      | none => some s
-      | some a => if s < a then some s else some a) none
+  minList ((b.hitParams p dir).filter fun s => decide (0 ≤ s ∧ s * s * dir.normSq ≤ D * D))
 
 /-- one candidate ray `r` (viewer frame): inside the windows, hits the target within `D`, and no kept
     occluder is hit at a distance `≤` the target hit -/
@@ -395,10 +400,34 @@ def Box.minLin (b : Box) (vw : Viewer) (l : V3) : Rat :=
   let g := b.M.applyT (vw.R.apply l)
   l.dot (vw.R.applyT (b.c.sub vw.cam)) - (absR g.x * b.h.x + absR g.y * b.h.y + absR g.z * b.h.z)
 
-/-- certificate that the whole box lies outside the view volume: too far, or strictly on the wrong
-    side of a plane through the vertical axis of the viewer that bounds the azimuth window -/
+/-- viewer-frame vector of a world point -/
+def vf (vw : Viewer) (p : V3) : V3 := vw.R.applyT (p.sub vw.cam)
+
+/-- strictly off the altitude band, above it (`sgn = 1`) or below it (`sgn = -1`):
+    `sgn·z > 0` and `cos·|z| > sin·√(x² + y²)` -/
+def OffBand (h : Half) (sgn : Rat) (v : V3) : Prop :=
+  0 < sgn * v.z ∧ h.s * h.s * (v.x * v.x + v.y * v.y) < h.c * h.c * (v.z * v.z)
+instance (h : Half) (sgn : Rat) (v : V3) : Decidable (OffBand h sgn v) := by
+  unfold OffBand; exact inferInstance
+
+/-- viewer-frame vector of the point with box coordinates `l` -/
+def boxPt (vw : Viewer) (b : Box) (l : V3) : V3 := vf vw (b.c.add (b.M.apply l))
+
+/-- all eight corners of the box are strictly above / below the altitude band -/
+def cornersOffBand (vw : Viewer) (b : Box) (sgn : Rat) : Prop :=
+  OffBand vw.a1 sgn (boxPt vw b ⟨-b.h.x, -b.h.y, -b.h.z⟩) ∧ OffBand vw.a1 sgn (boxPt vw b ⟨-b.h.x, -b.h.y, b.h.z⟩) ∧
+  OffBand vw.a1 sgn (boxPt vw b ⟨-b.h.x, b.h.y, -b.h.z⟩) ∧ OffBand vw.a1 sgn (boxPt vw b ⟨-b.h.x, b.h.y, b.h.z⟩) ∧
+  OffBand vw.a1 sgn (boxPt vw b ⟨b.h.x, -b.h.y, -b.h.z⟩) ∧ OffBand vw.a1 sgn (boxPt vw b ⟨b.h.x, -b.h.y, b.h.z⟩) ∧
+  OffBand vw.a1 sgn (boxPt vw b ⟨b.h.x, b.h.y, -b.h.z⟩) ∧ OffBand vw.a1 sgn (boxPt vw b ⟨b.h.x, b.h.y, b.h.z⟩)
+instance (vw : Viewer) (b : Box) (sgn : Rat) : Decidable (cornersOffBand vw b sgn) := by
+  unfold cornersOffBand; exact inferInstance
+
+/-- certificate that the whole box lies outside the view volume: too far, or all eight corners strictly above (or
+    all strictly below) the altitude band (a convex cone), or strictly on the wrong side of a plane through the
+    vertical axis of the viewer that bounds the azimuth window -/
 def outsideCert (vw : Viewer) (b : Box) : Bool :=
   decide (vw.D < 0) || decide (vw.D * vw.D < b.distSq vw.cam) ||
+  decide (cornersOffBand vw b 1) || decide (cornersOffBand vw b (-1)) ||
   (let c := vw.a0.c
    let s := vw.a0.s
    if 0 < c then
@@ -420,6 +449,7 @@ def insideCert (vw : Viewer) (b : Box) (u : V3) : Bool :=
   (let c := vw.a0.c
    let s := vw.a0.s
    if 0 < c then decide (0 ≤ b.minLin vw ⟨-c, s, 0⟩) && decide (0 ≤ b.minLin vw ⟨c, s, 0⟩)
+     && decide (0 ≤ b.minLin vw ⟨0, 1, 0⟩)
    else decide (0 ≤ b.minLin vw ⟨0, 1, 0⟩) || decide (0 ≤ b.minLin vw ⟨-c, s, 0⟩)
      || decide (0 ≤ b.minLin vw ⟨c, s, 0⟩)) &&
   -- altitude: cos·|z| ≤ sin·(u·(x,y)) ≤ sin·√(x²+y²)
